@@ -31,6 +31,9 @@ func monitorNested(c *Ctx, cs *progs.Case, o progs.Obs) {
 		if r.N.Late {
 			when = "finalized after the outer event"
 		}
+		if r.N.After {
+			when = "a following event (started after the outer event's finalizer returned)"
+		}
 		desc := map[string]interface{}{"program": cs.Describe(), "inner_event_number": i, "inner_event": in.Describe(), "inner_event_is": when,
 			"outer_line": fmt.Sprintf("%q", o.Line), "writes_on_the_inner_writer": quoteAll(o.NestLines)}
 		for k := r.From; k < r.To && k < len(covered); k++ {
